@@ -30,7 +30,9 @@ def main():
         sys.exit(2)
     try:
         if a.replay:
-            sys.exit(mod.replay(a.replay) if hasattr(mod, "replay") else common_replay(mod, a.replay))
+            from . import replay as _replay
+            common.use_repo()
+            sys.exit(_replay.replay(pid, a.replay))
         sys.exit(mod.run(tier))
     except common.MachineryError as ex:
         print(f"MACHINERY-FAILURE property={pid}: {ex}", file=sys.stderr)
